@@ -28,7 +28,8 @@ class Array:
 
 class Struct:
     def __init__(self, tag, members, union=False):
-        self.tag, self.members, self.union = tag, members, union     # members: [(name, type)]
+        self.tag, self.all_members, self.union = tag, members, union     # members: [(name, type)]; "" = unnamed bit-field
+        self.members = [m for m in members if m[0]]                      # unnamed members do not participate in initialization (6.7.9p9)
 
     def leaves(self, path):
         out = []
@@ -53,14 +54,14 @@ def decl(t, seen=None):
         for _, mt in t.members:
             out += decl(mt, seen)
         seen[t.tag] = 1
-        body = " ".join(field(mt, nme) + ";" for nme, mt in t.members)
+        body = " ".join(field(mt, nme) + ";" for nme, mt in t.all_members)
         out += "%s %s { %s };\n" % (t.kw, t.tag, body)
     return out
 
 
 def field(t, name):
     if isinstance(t, Scalar):
-        return "%s %s%s" % (t.name, name, " : %d" % t.width if t.width else "")
+        return "%s %s%s" % (t.name, name, " : %d" % t.width if t.width is not None else "")
     if isinstance(t, Struct):
         return "%s %s %s" % (t.kw, t.tag, name)
     dims = ""
@@ -365,7 +366,8 @@ UCHAR = Scalar("unsigned char", 1, False)
 P2 = Struct("P2", [("x", INT), ("y", INT)])
 IN3 = Struct("In3", [("a", CHAR), ("b", Array(SHORT, 2)), ("c", LONG)])
 UN = Struct("Un", [("i", INT), ("c", Array(CHAR, 4)), ("l", LONG)], union=True)
-BF = Struct("Bf", [("p", Scalar("int", 4, True, 3)), ("q", Scalar("unsigned int", 4, False, 5)), ("r", Scalar("int", 4, True, 9)), ("t", INT)])
+BF = Struct("Bf", [("p", Scalar("int", 4, True, 3)), ("", Scalar("int", 4, True, 2)), ("q", Scalar("unsigned int", 4, False, 5)), ("", Scalar("int", 4, True, 0)),
+                   ("r", Scalar("int", 4, True, 9)), ("t", INT)])
 OUT = Struct("Out", [("n", INT), ("pts", Array(P2, 2)), ("in", IN3), ("s", Array(CHAR, 4)), ("u", UN), ("z", LONG)])
 DEEP = Struct("Deep", [("m", Array(Array(INT, 2), 2)), ("o", OUT), ("bf", BF)])
 TYPES = [
